@@ -44,10 +44,30 @@ check("C05", "streamsim", "fault_enumeration",
   "Token extents rely on reading bufio.Reader.Buffered() and the scanner's pushback ring through reflect/unsafe; if those fields cannot be found the tiling probe is reported off. Five position defects that the repository's own tests encode are listed in known_findings.json (each keyed by what the wrong position IS, so any other wrong position is still a violation).",
   "deterministic simulation: crash-point enumeration over a simulated input stream with I/O-accounting tiling oracle", "DESIGN.md §4 C05")
 
+check("C13", "opsim", "exploration",
+  "Seeded exploration of operation sequences: a generated statement (biased towards accepted-but-odd shapes: zero/too-few/surplus arguments, zero or negative intervals, fractional divisors, wildcards and regexes in odd places, unknown functions) is parsed and a drawn sequence of 1-12 public operations is applied to it (printing, cloning, walking, all rewrites, wildcard expansion, Reduce, Eval/EvalBool/EvalType, ConditionExpr, SetTimeRange, GROUP BY interval/offset/Normalize, column and field names, privileges ...), each against a simulated schema service with an injected fault schedule and a simulated valuer (wrong-kind, NaN, extreme values, a simulated clock value, zones). In-place rewrites and kept results change what later operations see. Invariant: no operation panics or exceeds its step budget. A sampled crash oracle, exhaustive over nothing; stronger than the suite, which never sequences operations nor uses failing services.",
+  "The quantifier over accepted statements is sampled by the generator. Rewriters handed to Rewrite/RewriteExpr are type-preserving. Sources.MarshalBinary is not in the property's list of operations and is not exercised.",
+  "deterministic simulation: seeded operation histories against fault-injecting schema-service and valuer stubs, panic/step-budget invariant", "DESIGN.md §4 C13")
+check("C14", "opsim", "exploration",
+  "Seeded exploration of mutation histories over a statement cache: a generated SELECT (INTO target, subqueries, regex sources, every clause) is parsed; owners clone it (and clone clones, and CloneExpr sub-trees), poke single mutable sites, run in-place rewrites (incl. rewriters that edit nodes in place) and derived operations (Reduce, RewriteFields under mapper faults, evaluation, printing, names, privileges) in a drawn interleaving. After every step every AST is re-fingerprinted over its exported structure: clones equal their source at clone time; a step by one owner changes no other AST; a derived operation changes nothing, also when the mapper fails midway; results are fresh trees. In the exhaustive stratum every mutable site of the statement and of its clone is poked once (exhaustive over the mutation sites of that AST).",
+  "Structural identity is judged on exported fields (the unexported GroupByInterval memo is not observable). Sharing of immutable values (*regexp.Regexp, *time.Location) is allowed because independence is checked behaviourally. Statements and histories are sampled.",
+  "deterministic simulation: seeded multi-owner mutation histories with structural-fingerprint invariants after every step, exhaustive mutable-site enumeration per AST", "DESIGN.md §4 C14")
+check("C17", "schedsim", "exploration",
+  "Deterministic scheduling of real goroutines: 2-6 caller tasks run scripts of independent work (parse, print, quote, format, sanitize, lookup) and read-only operations on 1-2 shared ASTs; a pre-drawn plan decides which task runs and where it is preempted (library function entries, schema-service/valuer callbacks, statements touching sync/atomic or sync.Map, operation boundaries). The binary is built with -race; the scheduler's handoffs are hidden from ThreadSanitizer (norace functions, RaceDisable around channel operations), so the tasks are causally unordered for the detector while execution is serial and replayable. Oracles: no data race with a library frame; every result equals the result of the same call made alone on a fresh parse with the same services; no panic or budget overrun that the sequential twin does not show. Lazily filled process-wide state is kept cold by running the concurrent phase before the reference phase and by salting literals; failures that need earlier operations in the same process are reported with their minimal prelude.",
+  "Yield granularity is function entry / callbacks / atomic statements / op boundaries; interleavings inside standard-library calls are not controlled. ThreadSanitizer keeps a bounded access history per word. Library-spawned goroutines or channel waits would only hit the watchdog (exit 2). GroupByInterval/GroupByOffset on shared ASTs and in-place rewrites are excluded as the property says.",
+  "deterministic simulation: plan-driven cooperative scheduler over real goroutines with the Go race detector as oracle plus sequential-twin result equality", "DESIGN.md §3.3, §4 C17")
+check("C18", "clocksim", "exploration",
+  "Discrete-event simulation of a continuous-query service on a simulated clock: a runner (interval, offset, RESAMPLE EVERY/FOR, zone) computes its window at every tick and calls SetTimeRange on the same cached statement, under clock faults (forward jumps with skip or catch-up bursts, backward jumps, duplicate ticks, zero-length windows, non-UTC windows, sub-second and extreme instants). The initial WHERE clause is generated with intent metadata (tag/field predicates under AND/OR/parentheses, 0-4 time bounds in every written form). After every call the selection of the statement, computed by an independent evaluator over the AST now in Condition, must equal nonTime(point) AND start <= t < end on all boundary points (1 ns around every bound ever written x all predicate-relevant tag/field combinations); the condition must not grow; the call must return nil.",
+  "The continuous-query service is a stub (window arithmetic + the SetTimeRange call). The observed selection is computed by the harness's own evaluator, not by ConditionExpr/EvalBool. Initial conditions follow the property's quantifier (time bounds joined by AND; OR among non-time predicates only).",
+  "deterministic simulation: discrete-event clock with injected clock faults driving SetTimeRange histories, selection refinement against a reference model", "DESIGN.md §4 C18")
+
 PENDING = {}
 def main():
     engines = [
       {"name": "streamsim", "path": "sim/engines/streamsim.go, sim/engines/lexsim.go, sim/simstream", "serves_properties": ["C04", "C05"], "kind_free_text": "parser and scanner behind a simulated, fault-injecting io.Reader"},
+      {"name": "opsim", "path": "sim/engines/opsim.go, sim/engines/clonesim.go, sim/simschema", "serves_properties": ["C13", "C14"], "kind_free_text": "operation and mutation histories over parsed statements with failing schema service and odd valuers"},
+      {"name": "schedsim", "path": "sim/engines/schedsim.go, hook/hook.go", "serves_properties": ["C17"], "kind_free_text": "plan-driven scheduler over real goroutines, race detector as oracle"},
+      {"name": "clocksim", "path": "sim/engines/clocksim.go", "serves_properties": ["C18"], "kind_free_text": "discrete-event clock driving a continuous-query stub"},
       {"name": "schemasim", "path": "sim/engines/schemasim.go", "serves_properties": ["C12"], "kind_free_text": "map-order seam + failing schema service + reference expansion model"},
     ]
     na = [{"property_id": k, "reason": v} for k, v in sorted(NA.items())]
